@@ -12,6 +12,7 @@
   and unique).
 -/
 import DtnVerif.Lemmas.BundleRfc
+import DtnVerif.Lemmas.Crc
 import DtnVerif.Lemmas.BpAsb
 import DtnVerif.Generated.Facts
 namespace DtnVerif
@@ -244,6 +245,53 @@ example : (decodeBundle exForeign.enc).map (fun b => b.blocks.map (·.btsd))
   rw [C02_roundtrip_rfc exForeign (by decide +kernel)]; rfl
 example : (decodeBundle exForeign.enc).map Bundle.enc = some exForeign.enc :=
   C02_reencode_identical _ (C02_wfRfcEids_wf _ (by decide +kernel))
+
+/-! ### Re-encoding the way the agent does it: decode, `update_all_crc()`, encode -/
+
+/-- For a well-formed bundle whose CRCs check, decoding its octets, recomputing every CRC and
+    encoding again reproduces the octets (the CRC values already present do not enter the
+    computation). -/
+theorem C02_reencode_after_crc_update (b : Bundle) (h : wf b = true) (hc : b.checkAllCrc = []) :
+    (decodeBundle b.enc).map (fun d => d.updateAllCrc.enc) = some b.enc := by
+  rw [C02_roundtrip b h]
+  have : b.updateAllCrc = b := by
+    obtain ⟨hp, hcs⟩ := (checkAllCrc_nil_iff b).1 hc
+    cases b with
+    | mk p bs =>
+      simp only [Bundle.updateAllCrc, Primary.update_of_check p hp]
+      congr 1
+      conv => rhs; rw [← List.map_id bs]
+      apply List.map_congr_left
+      intro c hcm
+      exact Canonical.update_of_check c (hcs c hcm)
+  simp [this]
+
+/-- … and for any well-formed bundle after the first `update_all_crc()` (no hypothesis on the CRCs). -/
+theorem C02_reencode_updated (b : Bundle) (h : wf b.updateAllCrc = true) :
+    (decodeBundle b.updateAllCrc.enc).map (fun d => d.updateAllCrc.enc) = some b.updateAllCrc.enc := by
+  apply C02_reencode_after_crc_update _ h
+  rw [checkAllCrc_nil_iff]
+  refine ⟨Primary.check_update _, ?_⟩
+  intro c hc
+  simp only [Bundle.updateAllCrc, List.mem_map] at hc
+  obtain ⟨c0, _, rfl⟩ := hc
+  exact Canonical.check_update c0
+
+/-! ### DTN time conversion is exact integer arithmetic -/
+
+/-- A datetime that is `t` milliseconds (plus `r < 1000` microseconds) after the epoch converts to
+    exactly `t`, for every `t` — no value is off by one — and converts back to the millisecond. -/
+theorem C02_dtntime_exact (t r : Nat) (hr : r < 1000) :
+    dtnTimeOfMicros (microsOfDtnTime t + r) = t
+    ∧ microsOfDtnTime (dtnTimeOfMicros (microsOfDtnTime t + r)) = microsOfDtnTime t := by
+  have h1 : dtnTimeOfMicros (microsOfDtnTime t + r) = t := by
+    unfold dtnTimeOfMicros microsOfDtnTime; omega
+  exact ⟨h1, by rw [h1]⟩
+
+/-- the values a floating-point conversion gets wrong: 1 s + 1 ms, 2^29 s + 1 ms (2017), 2^30 s + 1 ms
+    (2034-01-09) after the epoch -/
+example : dtnTimeOfMicros 1001000 = 1001 ∧ dtnTimeOfMicros ((2 ^ 29 * 1000 + 1) * 1000) = 2 ^ 29 * 1000 + 1
+    ∧ dtnTimeOfMicros ((2 ^ 30 * 1000 + 1) * 1000 + 999) = 2 ^ 30 * 1000 + 1 := by decide
 
 /-! ### Security block payloads (types 11 / 12): the Abstract Security Block sequence -/
 
